@@ -63,6 +63,8 @@ type schedCase struct {
 	Force    bool    `json:"force,omitempty"`
 	ForceAll bool    `json:"force_all,omitempty"`
 	Yes      bool    `json:"yes,omitempty"`
+	Term     bool    `json:"term,omitempty"`   // a terminal is assumed (Logger.AssumeTerm): prompts read an answer
+	Answer   string  `json:"answer,omitempty"` // with Term: y | n | eof (what every prompt reads)
 	Jitter   int64   `json:"jitter"`
 	Seed     int64   `json:"seed"`
 	// Barrier > 0: every shell command writes to a stdout that blocks until Barrier activations have
@@ -193,7 +195,10 @@ func progTokens(d schedCase) string {
 	if d.Cap > 0 {
 		cap = strconv.Itoa(d.Cap)
 	}
-	fmt.Fprintf(&b, "F %s %s %s %s %s 1000 P %d", cap, b2s(d.Parallel), b2s(d.Force), b2s(d.ForceAll), b2s(d.Yes), len(d.Tasks))
+	// the model's `yes` = prompts pass (--yes, or a terminal answering "y"); `promptErr` = the answer cannot be read
+	passes := d.Yes || (d.Term && d.Answer == "y")
+	promptErr := !d.Yes && d.Term && d.Answer == "eof"
+	fmt.Fprintf(&b, "F %s %s %s %s %s 1000 %s P %d", cap, b2s(d.Parallel), b2s(d.Force), b2s(d.ForceAll), b2s(passes), b2s(promptErr), len(d.Tasks))
 	for _, t := range d.Tasks {
 		fmt.Fprintf(&b, " %d", len(t.Deps))
 		for _, dp := range t.Deps {
@@ -225,6 +230,28 @@ type schedObs struct {
 	setupErr string
 }
 
+// answerReader: what the prompts read.  Every prompt wraps stdin in its own bufio.Reader, so
+// the stream repeats the answer for ever; "eof" (and no terminal) is an empty stream.
+type repeatReader struct{ line string }
+
+func (r repeatReader) Read(p []byte) (int, error) {
+	n := 0
+	for n+len(r.line) <= len(p) {
+		n += copy(p[n:], r.line)
+	}
+	if n == 0 {
+		n = copy(p, r.line)
+	}
+	return n, nil
+}
+
+func answerReader(d schedCase) io.Reader {
+	if d.Term && (d.Answer == "y" || d.Answer == "n") {
+		return repeatReader{d.Answer + "\n"}
+	}
+	return strings.NewReader("")
+}
+
 func taskIndex(name string) int {
 	if strings.HasPrefix(name, "t") {
 		if n, err := strconv.Atoi(name[1:]); err == nil {
@@ -248,9 +275,9 @@ func runSchedImpl(d schedCase, dir string) schedObs {
 	}
 	e := task.NewExecutor(
 		task.WithDir(dir),
-		task.WithStdout(stdout), task.WithStderr(io.Discard), task.WithStdin(strings.NewReader("")),
+		task.WithStdout(stdout), task.WithStderr(io.Discard), task.WithStdin(answerReader(d)),
 		task.WithConcurrency(d.Cap), task.WithParallel(d.Parallel), task.WithForce(d.Force), task.WithForceAll(d.ForceAll),
-		task.WithAssumeYes(d.Yes), task.WithSilent(true),
+		task.WithAssumeYes(d.Yes), task.WithAssumeTerm(d.Term), task.WithSilent(true),
 		task.WithTempDir(task.TempDir{Remote: filepath.Join(dir, ".task"), Fingerprint: filepath.Join(dir, ".task")}),
 	)
 	if err := e.Setup(); err != nil {
@@ -352,6 +379,9 @@ func traceTokens(o schedObs) (string, int, map[string]int) {
 			}
 		case "callRet", "callReacq":
 			fmt.Fprintf(&b, " %s %s", ev.Kind, ev.Args[0])
+		case "promptErr":
+			// the model has one event for a prompt that does not pass; the result class tells them apart
+			b.WriteString(" promptFail")
 		default:
 			fmt.Fprintf(&b, " %s", ev.Kind)
 		}
@@ -408,6 +438,10 @@ func (c *Ctx) genSched(maxTasks int, cyclic bool) schedCase {
 	d.Force = r.Intn(8) == 0
 	d.ForceAll = r.Intn(12) == 0
 	d.Yes = r.Intn(3) == 0
+	if r.Intn(3) == 0 {
+		d.Term = true
+		d.Answer = []string{"y", "n", "eof"}[r.Intn(3)]
+	}
 	shared := map[int]bool{}
 	for i := 0; i < n; i++ {
 		t := sTask{Run: "always", PlatformOk: true, RequiresOk: true, EnumOk: true, PrecondOk: true}
